@@ -231,7 +231,7 @@ func (p *parser) isUsingDecl(inForHead bool) (string, bool) {
 		if nx.Kind == TIdent && !nx.NewlineBefore {
 			if inForHead && tokIsId(nx, "of") {
 				n2 := p.peek(2)
-				if !(tokIsP(n2, "=") || tokIsP(n2, ";") || tokIsP(n2, ",") || tokIsId(n2, "of") || tokIsK(n2, "in")) {
+				if !tokIsP(n2, "=") {
 					return "", false
 				}
 			}
@@ -248,6 +248,19 @@ func (p *parser) isUsingDecl(inForHead bool) (string, bool) {
 		}
 	}
 	return "", false
+}
+
+// parseSubStatement parses the body of if/else/for/while/do/with, where
+// declarations are not allowed and so `let` is an identifier unless it is
+// followed by '['.
+func (p *parser) parseSubStatement() *Node {
+	if p.isId("let") && !tokIsP(p.peek(1), "[") {
+		n := p.start(NExprStmt)
+		n.A = p.parseExpression()
+		p.semicolon()
+		return p.finish(n)
+	}
+	return p.parseStatement()
 }
 
 func (p *parser) parseStatement() *Node {
@@ -281,10 +294,10 @@ func (p *parser) parseStatement() *Node {
 			n := p.start(NIf)
 			p.next()
 			n.A = p.parseParenExpr()
-			n.B = p.parseStatement()
+			n.B = p.parseSubStatement()
 			if p.isK("else") {
 				p.next()
-				n.C = p.parseStatement()
+				n.C = p.parseSubStatement()
 			}
 			return p.finish(n)
 		case "for":
@@ -293,12 +306,12 @@ func (p *parser) parseStatement() *Node {
 			n := p.start(NWhile)
 			p.next()
 			n.A = p.parseParenExpr()
-			n.D = p.parseStatement()
+			n.D = p.parseSubStatement()
 			return p.finish(n)
 		case "do":
 			n := p.start(NDoWhile)
 			p.next()
-			n.D = p.parseStatement()
+			n.D = p.parseSubStatement()
 			p.expectK("while")
 			n.A = p.parseParenExpr()
 			p.eatP(";")
@@ -334,7 +347,7 @@ func (p *parser) parseStatement() *Node {
 			n := p.start(NWith)
 			p.next()
 			n.A = p.parseParenExpr()
-			n.B = p.parseStatement()
+			n.B = p.parseSubStatement()
 			return p.finish(n)
 		case "debugger":
 			n := p.start(NDebugger)
@@ -482,7 +495,7 @@ func (p *parser) parseFor() *Node {
 			}
 			p.expectP(")")
 			p.noIn = oldIn
-			n.D = p.parseStatement()
+			n.D = p.parseSubStatement()
 			return p.finish(n)
 		}
 	}
@@ -498,7 +511,7 @@ func (p *parser) parseFor() *Node {
 	}
 	p.expectP(")")
 	p.noIn = oldIn
-	n.D = p.parseStatement()
+	n.D = p.parseSubStatement()
 	return p.finish(n)
 }
 
